@@ -420,8 +420,14 @@ def lattice_programs(target_name):
     for i in inner:
         progs += [("select", ("lt", x, y), i, y), ("select", ("lt", i, y), x, i), ("add", i, i), ("multiply", ("add", i, y), i)]
     consts = [("c", 0), ("c", 1), ("c", 0.5), ("c", -2.5), ("c", 2), ("c", math.inf), ("c", -math.inf), ("c", -0.0), ("n", "largest"), ("n", "smallest"), ("n", "posinf"), ("n", "neginf"), ("n", "pi"), ("n", "eps")]
+    consts += [("c", np.float32(1.5)), ("c", np.float64(0.1)), ("c", np.float32(-0.0))]
     for c in consts:
         progs += [("add", x, c), ("subtract", c, x), ("multiply", ("add", x, c), c), ("select", ("lt", x, c), c, y), ("lt", c, x), ("maximum", x, c)]
+    # constant-only sub-trees (compile-time constant expressions of the alt context for xla_client)
+    c3, c4, cm = ("c", 3.0), ("c", 4.0), ("c", -1.5)
+    for ce in (("negative", ("add", c3, c4)), ("negative", cm), ("subtract", c3, ("multiply", c4, cm)), ("divide", c3, ("add", c4, cm)), ("sqrt", c4), ("negative", ("negative", c3)),
+               ("multiply", ("negative", c3), c4), ("subtract", ("negative", c3), ("negative", c4)), ("add", ("n", "pi"), cm), ("maximum", c3, cm)):
+        progs += [("multiply", x, ce), ("add", ce, y), ("select", ("lt", x, ce), x, ce)]
     progs += twin_constant_programs()
     seen, out = set(), []
     for r in progs:
